@@ -73,9 +73,9 @@ CHECKS = {
     "C15": {
         "level": "model_checking",
         "engine": "E2",
-        "technique": "exhaustive enumeration of rule graphs x queries x cache histories x map orders on the real chain search vs BFS reachability",
-        "level_text": "Every set of conversion rules up to a size bound over versions {v1,v1beta1,v2,v3} in short/grouped/foreign-group spellings (and longer chains/forks over v1..v7) is loaded into the real ChainStorage; every (from,to) request in every spelling is asked on a fresh storage and on storages whose path cache was filled by the other requests, under three controlled map iteration orders. Oracle: chain returned iff reachable by reference BFS, and every returned chain consists of declared rules, starts at from, ends at to, consecutive steps match.",
-        "level_note": "Trusted: reference BFS and version matching in the harness. chain.go is compiled with its map ranges routed through vrt.Keys (order chosen by the harness); Go's own random order is thereby replaced by 3 fixed orders. Bounded to the stated universe.",
+        "technique": "exhaustive enumeration of rule graphs x queries x cache histories x map orders on the real chain search vs BFS reachability; exhaustive enumeration of step outcomes through the real conversion handler",
+        "level_text": "Part a: every set of conversion rules up to a size bound (<=2 quick / 3 thorough rules over 48 spellings of versions {v1,v1beta1,v2,v3} with and without the group; <=4/6 over 12 short rules; <=7/9 of an 11-rule chain/fork graph over v1..v7) is loaded into the real ChainStorage; every (from,to) request in every spelling is asked on a fresh storage and on storages whose path cache was filled by the other requests, under three controlled map iteration orders. Oracle: chain returned iff reachable by reference BFS, and every returned chain consists of declared rules, starts at from, ends at to, consecutive steps match. Part b: a two-step chain served by two hooks through the operator's own conversion webhook manager, the real HTTP handler and conversionEventHandler, for all 25 pairs of step outcomes (converted, failedMessage, exit 1, garbage, short object list): the review succeeds iff every step converted, the answer carries the last step's objects, a failed step stops the chain and its message is relayed, the UID is echoed.",
+        "level_note": "Trusted: reference BFS and version matching in the harness, the process stand-in in part b. chain.go is compiled with its map ranges routed through vrt.Keys (order chosen by the harness); Go's own random order is thereby replaced by 3 fixed orders. Requests naming a group other than the CRD's are outside the statement and not enumerated. Bounded to the stated universe.",
         "rule": "all subsets of the rule universe up to the size bound x all queries x {fresh, cached-fwd, cached-bwd} x 3 map orders; non-trivial = chain of >= 2 steps; distinct = distinct (rules, request, chain)",
         "parts": [
             part("c15a", "pkg/webhook/conversion", "TestVerifC15a", ["zz_verif_c15_test.go"], shards={"quick": 8, "thorough": 16},
@@ -124,8 +124,8 @@ CHECKS = {
         "level": "model_checking",
         "engine": "E1",
         "technique": "stateless model checking: deviation-bounded DFS over all interleavings of the instrumented informer/monitor code under a controlled scheduler",
-        "level_text": "The real kubeEventsManager, monitor and resourceInformer sources are compiled with their lock, channel, goroutine-start operations and unsynchronised flags as scheduling points and run under a hand-written controlled scheduler; client-go informers are replaced by a hub with one FIFO and one delivery thread per handler. For every scenario (6 histories of <=3 changes over 2 objects / 2 namespaces x {no filter, object-valued jqFilter, full objects dropped, Modified only} x {0,1} extra snapshot readers, namespace.labelSelector with a namespace appearing after start) ALL interleavings of informer delivery, environment, Synchronization (Snapshot; hook; EnableKubeEventCb), extra readers and the event-channel consumer with at most 2 (quick) / 3 (thorough) pre-emptions are executed; each is checked with the suffix oracle against the environment's own mutation log (no early event, per-object order, no loss).",
-        "level_note": "Trusted: the hub as a model of client-go's per-handler ordered delivery (conformance run in the thorough tier), the fake cluster, the scheduler (vrt). Scheduling granularity: lock acquisition, channel ops, goroutine start, listed racy fields; sequential consistency assumed. Bounded: histories, configurations and the pre-emption bound are listed in the evidence.",
+        "level_text": "Level 1: the real kubeEventsManager, monitor and resourceInformer sources are compiled with their lock, channel, goroutine-start operations and unsynchronised flags as scheduling points and run under a hand-written controlled scheduler; client-go informers are replaced by a hub with one FIFO and one delivery thread per handler. For every scenario (6 histories of <=3 changes over 2 objects / 2 namespaces x {no filter, object-valued jqFilter, full objects dropped, Modified only} x {0,1} extra snapshot readers, namespace.labelSelector with a namespace appearing after start, slow consumer) the environment timing (deliveries before the Synchronization view and before the unlock, reader phase) is enumerated and ALL interleavings of informer delivery, Synchronization (Snapshot; hook; EnableKubeEventCb), extra readers and the event-channel consumer with at most 2 (quick; 1 for the larger scenarios) / 3 (thorough) pre-emptions are executed; each is checked with the suffix oracle against the environment's own mutation log (no early event, per-object order, no loss). Level 2: the real ShellOperator.Start() with a plain binding, a binding in its own queue and two bindings of one group, the Synchronization execution failing 0..1 (2) times, changes arriving while it fails and afterwards (each later change at once or after the operator went quiet), all schedules within 1 (2) deviations of the default scheduler; oracle on what the hook is given: no Event before the successful Synchronization, versions in order, the hook's view ends at the cluster's final state (for a group: the last Group execution shows the final state of every binding).",
+        "level_note": "Trusted: the hub as a model of client-go's per-handler ordered delivery (its event sequences are compared with real client-go informers on the fake cluster by the conformance part of C02), the fake cluster, the scheduler (vrt), the process stand-in at level 2. Scheduling granularity: lock acquisition, channel ops, goroutine start, listed racy fields; sequential consistency assumed. Bounded: histories, configurations and the bounds are listed in the evidence.",
         "rule": "DFS over choice sequences (thread to run at each scheduling point) with at most N pre-emptions; non-trivial = execution with >= 1 pre-emption; distinct = distinct (Synchronization view, delivered event sequence) per scenario",
         "assumptions": ["informer hub models client-go: per-handler FIFO, initial LIST enqueued at registration, arbitrary lag"],
         "parts": [
@@ -276,13 +276,15 @@ CHECKS = {
         "engine": "E2+E1",
         "technique": "exhaustive enumeration of cluster histories x monitor configurations on the real monitor/informer code vs reference sets (plus restart differential); stateless model checking of the start-up window and of concurrent snapshot reads inside one execution",
         "level_text": "Part a: every history of up to 3 (quick) / 4 (thorough) steps over 14 operations (create / modify / delete of objects in three namespaces, a labelled namespace deleted with its objects, a labelled namespace appearing) with synchronous delivery, for 12 monitor configurations (all namespaces | namespace.nameSelector | namespace.labelSelector x matchNames x jqFilter x keepFullObjectsInMemory): after every step the real Snapshot() equals the reference computed from the cluster (same elements once each, sorted by namespace/name, projection and object presence per item) and equals the snapshot of a fresh monitor on the same cluster (restart). Part b: environment changes interleaved by the scheduler with AddMonitor's LIST and StartMonitor's LIST (5 histories, bound 1/2): once quiet the snapshot equals the cluster. Part c: at operator level, hook executions whose contexts mention one binding several times (Synchronization objects, self-include, group, includeSnapshotsFrom from other bindings and queues) with informer deliveries interleaved: inside one execution every occurrence of a binding's snapshot is identical and the keys of snapshots are exactly the declared ones.",
-        "level_note": "Trusted: hub (per-handler FIFO), fake cluster with a list reactor honouring metadata.name, reference sets. Configurations whose documented meaning is ambiguous are left out (nameSelector and labelSelector on one binding; two bindings with one name).",
+        "level_note": "Trusted: hub (per-handler FIFO), fake cluster with a list reactor honouring metadata.name, reference sets. Configurations whose documented meaning is ambiguous are left out (nameSelector and labelSelector on one binding; two bindings with one name). Part hubconf: the informer hub used by every scheduler-controlled check is compared with real client-go shared informers started by the repository's own FactoryStore.Start / namespaceInformer.start: all histories up to depth 3 (quick) / 4 (thorough) over 12 operations x every registration moment of 1-2 handlers, identical per-handler callback sequences step by step (selector configurations: initial LIST only, the fake WATCH does not filter).",
         "rule": "product enumeration of histories x configurations (part a); DFS over interleavings within the bound (parts b, c); non-trivial = history of >= 2 steps / a deviation; distinct = distinct (configuration, snapshot)",
         "parts": [
             part("c02a", "pkg/kube_events_manager", "TestVerifC02a", ["zz_verif_c02_test.go", "zz_verif_c01_test.go"], shards={"quick": 16, "thorough": 16},
                  extra={"pkg/kube_events_manager": ["zz_verif_hub.go"]}, instrument={"files": KEM_INSTR}, gomaxprocs=1),
             part("c02b", "pkg/kube_events_manager", "TestVerifC02b", ["zz_verif_c02_test.go", "zz_verif_c01_test.go"], shards={"quick": 5, "thorough": 10},
                  extra={"pkg/kube_events_manager": ["zz_verif_hub.go"]}, instrument={"files": KEM_INSTR}, gomaxprocs=1),
+            part("hubconf", "pkg/kube_events_manager", "TestVerifHubConformance", ["zz_verif_hubconf_test.go", "zz_verif_c01_test.go"], shards={"quick": 16, "thorough": 16},
+                 extra={"pkg/kube_events_manager": ["zz_verif_hub.go"]}, instrument={"files": KEM_INSTR}),
             part("c02c", "pkg/shell-operator", "TestVerifC02c", ["zz_verif_c02_test.go", "zz_verif_c09_test.go", "zz_verif_c03_test.go", "zz_verif_fixture_test.go"], shards={"quick": 16, "thorough": 16},
                  extra=OP_EXTRA, instrument=OP_INSTR, gomaxprocs=1),
         ],
